@@ -11,7 +11,7 @@ import (
 )
 
 var (
-	tyOBN   = ObjOf(F("v", MaybeOf(TNum)), F("w", TNum))
+	tyOBN    = ObjOf(F("v", MaybeOf(TNum)), F("w", TNum))
 	c16Order = []string{"b", "n", "s", "t", "xs", "mp", "o", "ob", "on", "os", "ot", "oxs", "omp", "oo", "lon", "mon", "obn"}
 )
 
